@@ -64,8 +64,13 @@ def draw_rotation(rng, wild=True):
 def draw_tm_scatterer(rng, center, wild=True, sizeclass=None):
     kind = rng.choice(['spheroid', 'spheroid', 'cylinder', 'sphere'])
     sizeclass = sizeclass or rng.choices(
-        ['small', 'mid', 'edge', 'huge'], [0.4, 0.46, 0.08, 0.06])[0]
-    if sizeclass == 'small':
+        ['small', 'mid', 'edge', 'huge', 'absurd'],
+        [0.4, 0.45, 0.08, 0.05, 0.02])[0]
+    if sizeclass == 'absurd':
+        # "any size": far beyond anything physical (size parameter up to
+        # 1e13, beyond the range of a 32-bit integer)
+        a = rng.choice([1e3, 1e6, 2e8, 3.7e9, 1e12])
+    elif sizeclass == 'small':
         a = rfloat(rng, 0.01, 0.2, 4)
     elif sizeclass == 'mid':
         a = rfloat(rng, 0.2, 0.9, 4)
